@@ -2121,6 +2121,19 @@ impl Column {
 		}
 	}
 
+	// Reads a value table entry from the log without side effects.
+	pub fn skip_value_plan(
+		&self,
+		record: crate::log::InsertValueAction,
+		log: &mut LogReader,
+	) -> Result<()> {
+		let tier = record.table.size_tier() as usize;
+		match self {
+			Column::Hash(column) => column.tables.read().value[tier].validate_plan(record.index, log),
+			Column::Tree(column) => column.skip_value_plan(tier, record.index, log),
+		}
+	}
+
 	pub fn enact_plan(&self, action: LogAction, log: &mut LogReader) -> Result<()> {
 		match self {
 			Column::Hash(column) => column.enact_plan(action, log),
